@@ -363,7 +363,9 @@ fn run_transport(
     let mut clients_to_remove = Vec::new();
     let mut metadata = HashMap::new();
     let mut next_token = START_TOKEN;
-    let mut buffered_pmsgs = VecDeque::with_capacity(buffer_limit);
+    // `buffer_limit` is an upper bound on what we keep, not something to pre-allocate: with no limit configured
+    // it is `usize::MAX`, and `VecDeque::with_capacity(usize::MAX)` panics with a capacity overflow.
+    let mut buffered_pmsgs = VecDeque::new();
 
     loop {
         let _span = trace_span!("transport");
